@@ -408,6 +408,25 @@ func (e *env) run(st Step) (res Result) {
 		buf.Write(bytes.Repeat([]byte{byte(st.Fill)}, st.N))
 	case "prim":
 		return e.prim(st)
+	case "factory":
+		fn := factories[st.Module][st.Fn]
+		if fn == nil {
+			res.Err = strp("unknown factory " + st.Fn)
+			return
+		}
+		fv := reflect.ValueOf(fn)
+		arg := reflect.New(fv.Type().In(0)).Elem()
+		if err := setValue(arg, st.Args[0], st.Module); err != nil {
+			res.Err = strp(err.Error())
+			return
+		}
+		out := fv.Call([]reflect.Value{arg})
+		if !out[1].IsNil() {
+			res.Err = strp(out[1].Interface().(error).Error())
+		}
+		if !out[0].IsNil() {
+			res.Ret = reflect.TypeOf(out[0].Interface()).Elem().Name()
+		}
 	case "registry":
 		return e.registryOps(st)
 	case "parallel":
